@@ -205,6 +205,18 @@ def normal_pair(ctx, rule="R-NORMAL-PAIR"):
             ss = [(i, e) for i, e in r.effects() if e.kind == "store" and e.target == STATE_F]
             aa = [(i, e) for i, e in r.effects() if e.kind == "store" and e.target == ADDR_F]
             for i, e in ss:
+                if e.value[0] == "ife" and ("c", st["NORMAL"]) in (e.value[2], e.value[3]):
+                    # state chosen by a conditional expression: decide the NORMAL case under its condition
+                    from .common import resolve_under
+                    cnd = e.value[1] if e.value[2] == ("c", st["NORMAL"]) else mk_not(e.value[1])
+                    n += 1
+                    inst = "%s: NORMAL stored together with the held address" % name
+                    vals = [resolve_under(x.value, cnd) for _, x in aa]
+                    if vals and vals[-1] not in (NULL, ("c", None)) and (vals[-1] in (ANN_F, PREF_F, ("p", "device_address_preferred")) or vals[-1][0] != "c"):
+                        ctx.holds(rule, inst)
+                    else:
+                        ctx.violated(rule, f, inst, "state becomes NORMAL under %s while the held address is %s" % (pretty(cnd)[:50], pretty(vals[-1]) if vals else "not set"), e.node)
+                    continue
                 if e.value == ("c", st["NORMAL"]):
                     n += 1
                     inst = "%s: NORMAL stored together with the held address" % name
